@@ -161,7 +161,7 @@ pub fn run(cfg: &RunCfg, stats: &mut Stats, exhaustive: &mut bool, extra: &mut V
             Outcome::Pass => run_call_sites(cfg, stats),
             other => other,
         },
-        "C19" => match macro_paths(&cfg.id, stats).and_then(|_| if cfg.thorough { endurance(stats) } else { Ok(()) }) {
+        "C19" => match macro_paths(&cfg.id, stats).and_then(|_| many_callers(stats)).and_then(|_| if cfg.thorough { endurance(stats) } else { Ok(()) }) {
             Ok(()) => run_call_sites(cfg, stats),
             Err(f) => Outcome::Violation(Violation { replay: json!({"property": cfg.id, "kind": "macro_paths", "clause": f.clause, "detail": f.detail}), fail: f }),
         },
@@ -230,7 +230,7 @@ pub fn replay(id: &str, v: &Value) -> Result<Option<Fail>, String> {
                 _ => Err("bad start".into()),
             }
         }
-        (_, "macro_paths") => Ok(macro_paths(id, &mut st).and_then(|_| if id == "C19" { endurance(&mut st) } else if id == "C12" || id == "C13" { push_situations(id, &mut st) } else { Ok(()) }).err()),
+        (_, "macro_paths") => Ok(macro_paths(id, &mut st).and_then(|_| if id == "C19" { many_callers(&mut st).and_then(|_| endurance(&mut st)) } else if id == "C12" || id == "C13" { push_situations(id, &mut st) } else { Ok(()) }).err()),
         (_, "call_site") => {
             let start = crate::drive::start_from_json(&v["start"])?;
             let actions: Vec<arimaa_engine_step::Action> = v["actions"].as_array().ok_or("actions")?.iter().filter_map(|x| x.as_str()).map(crate::drive::parse_action_text).collect::<Result<_, _>>()?;
@@ -875,6 +875,121 @@ pub fn endurance(st: &mut Stats) -> Check {
             Ok(())
         }
         Err(pn) => Err(Fail::new("C19:valid_actions", format!("after billions of offered actions on one thread (a position offering {} actions asked over and over, aiming at 2^32 actions in total) a list query panicked: {} at [{}]", n, pn, board_text(&p.board)))),
+    }
+}
+
+// =====================================================================================
+// C19 many callers (once per run): 160 threads, each with its *own* states built from plain text, ask the
+// same query at the same time, query after query (a rendezvous before each, so that all of them are
+// inside that query together for the whole phase). Nothing is shared between the threads except what the
+// engine itself keeps process-wide; every call must return normally, as it does for one caller.
+// =====================================================================================
+pub fn many_callers(st: &mut Stats) -> Check {
+    const THREADS: usize = 160;
+    const TEXT: &str = "7g\n +-----------------+\n8|                 |\n7|   r             |\n6|     x     x     |\n5|       r d       |\n4|       E C       |\n3|     x     x     |\n2|   R             |\n1|                 |\n +-----------------+\n   a b c d e f g h";
+    let phases: usize = 9;
+    let barrier = std::sync::Arc::new(std::sync::Barrier::new(THREADS));
+    let mut handles = vec![];
+    for t in 0..THREADS {
+        let barrier = barrier.clone();
+        handles.push(std::thread::Builder::new().stack_size(1 << 20).spawn(move || -> Result<u64, String> {
+            let built = guard(|| -> Option<Vec<GameState>> {
+                let s0: GameState = TEXT.parse().ok()?;
+                let mut v = vec![s0.clone()];
+                let mut s = s0;
+                for a in ["b2n", "b3n", "b4n"] {
+                    s = s.take_action(&crate::drive::parse_action_text(a).ok()?);
+                    v.push(s.clone());
+                }
+                Some(v)
+            });
+            let states: Vec<GameState> = match &built {
+                Ok(Some(v)) => v.clone(),
+                _ => vec![],
+            };
+            let mut first_err: Option<String> = match built {
+                Err(p) => Some(format!("building the states panicked: {}", p)),
+                _ => None,
+            };
+            let mut calls = 0u64;
+            for phase in 0..phases {
+                barrier.wait();
+                // the two cheapest queries are asked of one state only (the turn start, then the state three
+                // steps in) so that the threads are inside the very same code for the whole phase
+                let reps = if phase == 0 { 400_000 } else if phase == 1 { 100_000 } else if phase < 4 { 4000 } else { 600 };
+                for i in 0..reps {
+                    let pick = if phase < 2 { if i < reps * 2 / 3 { 0 } else { 3 } } else { (i + t) % states.len().max(1) };
+                    let s = match states.get(pick) {
+                        Some(s) => s,
+                        None => break,
+                    };
+                    let r = guard(|| match phase {
+                        0 => { std::hint::black_box(s.has_move(s.piece_board())); }
+                        1 => { std::hint::black_box(s.is_terminal()); }
+                        2 => { std::hint::black_box(s.can_pass(true)); std::hint::black_box(s.can_pass(false)); }
+                        3 => { std::hint::black_box(s.transposition_hash()); }
+                        4 => { std::hint::black_box(s.valid_actions().len()); }
+                        5 => { std::hint::black_box(s.valid_actions_no_rep().len()); }
+                        6 => { std::hint::black_box(format!("{}", s).len()); }
+                        7 => {
+                            for a in s.valid_actions() {
+                                std::hint::black_box(s.take_action(&a).transposition_hash());
+                            }
+                        }
+                        _ => {
+                            let steps = s.as_play_phase().map(|pp| pp.step()).unwrap_or(0);
+                            for k in 0..=steps.min(3) {
+                                std::hint::black_box(s.piece_board_for_step(k).bits_by_piece_type(arimaa_engine_step::Piece::Rabbit));
+                            }
+                        }
+                    });
+                    calls += 1;
+                    if let Err(p) = r {
+                        if first_err.is_none() {
+                            first_err = Some(format!("query phase {} ({}) panicked: {}", phase, ["has_move", "is_terminal", "can_pass", "transposition_hash", "valid_actions", "valid_actions_no_rep", "Display", "take_action of every offered action", "piece_board_for_step"][phase], p));
+                        }
+                        break;
+                    }
+                }
+            }
+            match first_err {
+                Some(e) => Err(e),
+                None => Ok(calls),
+            }
+        }));
+    }
+    let mut total = 0u64;
+    let mut fail: Option<String> = None;
+    for (t, h) in handles.into_iter().enumerate() {
+        match h {
+            Ok(h) => match h.join() {
+                Ok(Ok(n)) => total += n,
+                Ok(Err(e)) => {
+                    if fail.is_none() {
+                        fail = Some(format!("thread {} of {}: {}", t, THREADS, e));
+                    }
+                }
+                Err(_) => {
+                    if fail.is_none() {
+                        fail = Some(format!("thread {} of {} died outside the guarded calls", t, THREADS));
+                    }
+                }
+            },
+            Err(_) => {
+                // the machine would not start that many threads: the others wait at the rendezvous for ever,
+                // so this must not happen silently
+                return Err(Fail::new("harness:spawn", "could not start 160 threads".into()));
+            }
+        }
+    }
+    st.add("many_callers_calls", total);
+    st.eval();
+    match fail {
+        None => {
+            st.bump("many_callers_runs");
+            Ok(())
+        }
+        Some(e) => Err(Fail::new("C19:panic", format!("with 160 threads asking their own copies of the same states (the skirmish position, zero to three steps into Gold's turn) the same query at the same time: {}", e))),
     }
 }
 
